@@ -16,6 +16,7 @@ Case lines:
      (harness/prog/src/fwd.rs).
  '107 <container> <tag> | call ; ..'  by-reference calls followed by a CONSUMING call (boxed object, boxed with context, group, cast!, into!): what the method saw of its
      own value (destructor not yet run, one live value), destructor once afterwards (harness/prog/src/consume.rs).
+ '109 <container> | 0'  a group whose optional traits have acronym-style names and identical method lists: every view reaches the requested trait's method (harness/prog/src/acro.rs).
  '108 <enabled> <container> | castop request ; ..'  group casts followed by calls (see C08).
 Monitor: results, argument digests seen by the implementation, final state, call log (same method, same instance, once) agree."""
 PROP = "C01"
@@ -46,11 +47,11 @@ def run_impl(lines):
 
 
 def model_line(l):
-    return "0 |" if l.startswith(("101 ", "102 ", "104 ", "105 ", "107 ")) else l
+    return "0 |" if l.startswith(("101 ", "102 ", "104 ", "105 ", "107 ", "109 ")) else l
 
 
 def compare(l, impl_rows, model_rows):
-    if l.startswith(("101 ", "102 ", "104 ", "105 ", "107 ")):
+    if l.startswith(("101 ", "102 ", "104 ", "105 ", "107 ", "109 ")):
         return True          # behavioural direct-vs-opaque runs: decided by the implementation-side monitor alone
     return impl_rows == model_rows
 
@@ -73,7 +74,7 @@ def gen_cases(rng, tier):
     f = f + x
     d5.update(dx)
     y, dy = G.consume_cases(rng.fork("consume"), tier)
-    f = f + y
+    f = f + y + ["109 %d | 0" % k for k in (0, 1, 2)]
     d5.update(dy)
     g, d6 = G.fwd_ir_cases(rng.fork("fwdir"), tier)
     e = e + f + g
